@@ -320,6 +320,14 @@ fn check_bytes(w: &mut W, idx: u64, bytes: &[u8], case: &dyn Fn() -> Value) {
                     v
                 });
             }
+            // the other character display formats and indents of tfm_to_pl (the tftopl binary's options)
+            for (k, indent) in [(1u8, 0usize), (2, 9)] {
+                let r = catch(|| tfm::algorithms::tfm_to_pl(bytes, indent, &move |_| if k == 1 { tfm::pl::CharDisplayFormat::Ascii } else { tfm::pl::CharDisplayFormat::Octal }).map(|o| o.pl_data.map(|p| p.len()).unwrap_or(0)));
+                if let Err(p) = r {
+                    return panic_fail(w, idx, case, p, if k == 1 { "tfm_to_pl (Ascii format, indent 0)" } else { "tfm_to_pl (Octal format, indent 9)" });
+                }
+            }
+            w.acc.count("other_display_formats_converted");
             // the property list TFtoPL wrote is itself a text for PLtoTF
             match catch(|| tfm::algorithms::pl_to_tfm(&pl)) {
                 Err(p) => panic_fail(w, idx, case, p, "pl_to_tfm(tfm_to_pl(bytes))"),
@@ -374,12 +382,12 @@ fn check_text(w: &mut W, idx: u64, text: &str, case: &dyn Fn() -> Value) {
 // ------------------------------------------------------------------ families: index -> case
 
 const REPL: &[&str] = &[
-    "0", "255", "256", "2047", "2048", "-1", "77777777777", "0.5", "16.0", "-16.0", "2047.9999999", "-2047.9999999", "C", "O", "D", "H", "R", "F", "A", "MRR", "TRUE", "LABEL", "STOP", "SKIP", "BOUNDARYCHAR", "(", ")", "é", "1é", "Aé0", "R é", "C é", "\u{2028}",
+    "0", "255", "256", "2047", "2048", "-1", "77777777777", "0.5", "16.0", "-16.0", "2047.9999999", "-2047.9999999", "C", "O", "D", "H", "R", "F", "A", "MRR", "TRUE", "LABEL", "STOP", "SKIP", "BOUNDARYCHAR", "(", ")", "é", "1é", "Aé0", "R é", "C é", "\u{2028}", "😀", "C 😀", "0.1234567", "0.12345678", "12345678901234567", "123456789012345678", "37777777777", "40000000000", "FFFFFFFF", "100000000", "-0", "+1", "--1", "+-1",
 ];
 const PROPS: &[&str] = &[
     "CHECKSUM", "DESIGNSIZE", "DESIGNUNITS", "CODINGSCHEME", "FAMILY", "FACE", "SEVENBITSAFEFLAG", "HEADER", "FONTDIMEN", "LIGTABLE", "BOUNDARYCHAR", "CHARACTER", "COMMENT", "SLANT", "SPACE", "STRETCH", "SHRINK", "XHEIGHT", "QUAD", "EXTRASPACE", "NUM1", "NUM3", "DENOM2", "SUP3", "SUB2", "SUPDROP", "DELIM2", "AXISHEIGHT", "DEFAULTRULETHICKNESS", "BIGOPSPACING5", "PARAMETER", "LABEL", "STOP", "SKIP", "KRN", "LIG", "/LIG", "/LIG>", "LIG/", "LIG/>", "/LIG/", "/LIG/>", "/LIG/>>", "CHARWD", "CHARHT", "CHARDP", "CHARIC", "NEXTLARGER", "VARCHAR", "TOP", "MID", "BOT", "REP",
 ];
-const N_FIXED: u64 = 7; // delete, duplicate, truncate before, insert "(", insert ")", non-ASCII character appended / prepended
+const N_FIXED: u64 = 8; // delete, duplicate, truncate before, insert "(", insert ")", non-ASCII character appended / prepended
 const N_FILE: u64 = 4; // character codes one below the first / one above the last CHARACTER (octal, decimal)
 fn menu_len() -> u64 {
     N_FIXED + REPL.len() as u64 + N_FILE + PROPS.len() as u64
@@ -482,6 +490,29 @@ impl TextFamily {
                 3 => ("`(` inserted before it".to_string(), format!("{}( {}", &t[..s], &t[s..])),
                 4 => ("`)` inserted before it".to_string(), format!("{}) {}", &t[..s], &t[s..])),
                 5 => ("non-ASCII `é` appended to it".to_string(), format!("{}é{}", &t[..e], &t[e..])),
+                7 => {
+                    // the whole balanced property list that starts at this `(` once more (a second LIGTABLE,
+                    // the same CHARACTER twice, two BOUNDARYCHARs …)
+                    if tok != "(" {
+                        return None;
+                    }
+                    let (mut depth, mut end) = (0i32, None);
+                    for (p, c) in t[s..].char_indices() {
+                        match c {
+                            '(' => depth += 1,
+                            ')' => {
+                                depth -= 1;
+                                if depth == 0 {
+                                    end = Some(s + p + 1);
+                                    break;
+                                }
+                            }
+                            _ => {}
+                        }
+                    }
+                    let end = end?;
+                    ("property list repeated".to_string(), format!("{}{}{}", &t[..end], &t[s..end], &t[end..]))
+                }
                 _ => ("non-ASCII `ü` put in front of it".to_string(), format!("{}ü{}", &t[..s], &t[s..])),
             }
         } else if item < N_FIXED + REPL.len() as u64 {
@@ -520,9 +551,9 @@ impl TextFamily {
 }
 
 /// Lattices for the template family.
-const FIX: &[&str] = &["1é", "0", "1", "-1", "0.000001", "15.999999", "16", "-16", "-16.000001", "1023.5", "2047.999999", "2048", "-2047.999999", "-2048", "99999999999", "1.0E5", ""];
+const FIX: &[&str] = &["1é", "0", "1", "-1", "0.000001", "15.999999", "16", "-16", "-16.000001", "1023.5", "2047.999999", "2048", "-2047.999999", "-2048", "99999999999", "1.0E5", "", "0.1234567", "0.12345678", "0.123456789012345678", "-0", "+1.5", "--1.5", "15.9999999", "2047.9999995"];
 const CODES: &[&str] = &["C é", "C A", "C B", "O 0", "O 377", "O 400", "D 65", "D 256", "H 41", "H FF", "H 100", "F MRR", "C", "D -1"];
-const INTS: &[&str] = &["0", "1", "17", "18", "19", "254", "255", "256", "257", "32767", "32768", "65535", "65536", "2147483647", "2147483648", "4294967295", "4294967296", "-1"];
+const INTS: &[&str] = &["0", "1", "17", "18", "19", "254", "255", "256", "257", "32767", "32768", "65535", "65536", "2147483647", "2147483648", "4294967295", "4294967296", "-1", "37777777777", "40000000000", "12345678901234567", "123456789012345678", "+1", "--1", "-+-1", "FFFFFFFF", "100000000"];
 
 /// (template, hole kinds) – `#` is a hole; kinds: f = FIX, c = CODES, i = INTS
 const TEMPLATES: &[(&str, &str)] = &[
@@ -848,7 +879,7 @@ fn limit_pl_cases() -> Vec<(String, String, usize)> {
 }
 
 const VOCAB: &[&str] = &[
-    "(", ")", "CHARACTER", "C", "A", "LIGTABLE", "LABEL", "LIG", "KRN", "STOP", "SKIP", "D", "R", "1", "256", "-1", "BOUNDARYCHAR", "NEXTLARGER", "VARCHAR", "REP", "CHARWD", "DESIGNSIZE", "CHECKSUM", "HEADER", "FONTDIMEN", "PARAMETER", "O", "é", "\r", "\r\n", "\n\r",
+    "(", ")", "CHARACTER", "C", "A", "LIGTABLE", "LABEL", "LIG", "KRN", "STOP", "SKIP", "D", "R", "1", "256", "-1", "BOUNDARYCHAR", "NEXTLARGER", "VARCHAR", "REP", "CHARWD", "DESIGNSIZE", "CHECKSUM", "HEADER", "FONTDIMEN", "PARAMETER", "O", "é", "\r", "\r\n", "\n\r", "😀",
 ];
 
 fn nesting_cases(thorough: bool) -> Vec<(String, String)> {
@@ -856,6 +887,9 @@ fn nesting_cases(thorough: bool) -> Vec<(String, String)> {
     let mut ns = vec![1usize, 2, 3, 10, 100, 1000, 10_000, 100_000];
     if thorough {
         ns.push(1_000_000);
+    }
+    for t in ["", " ", "\n", "\t \n", "()", "( )", "(COMMENT)", "(LIGTABLE)", "(FONTDIMEN)", "(CHARACTER)", "(VARCHAR)", "(CHARACTER C A)", "(CHARACTER C A (VARCHAR))", "(LIGTABLE (LABEL C A))", "(LIGTABLE (STOP))", "(LIGTABLE (SKIP D 1))", "(LIGTABLE (LABEL BOUNDARYCHAR))"] {
+        out.push((format!("empty / blank / bodyless text {t:?}"), t.to_string()));
     }
     for n in ns {
         for (name, open, close) in [("(", "(", ""), (")", ")", ""), ("(A", "(A ", ""), ("(CHARACTER C A", "(CHARACTER C A ", ""), ("(LIGTABLE", "(LIGTABLE ", ""), ("(COMMENT ... ) balanced", "(COMMENT ", ")"), ("(CHARACTER C A (COMMENT ... balanced", "(COMMENT ", ")"), ("(VARCHAR", "(VARCHAR ", ")")] {
@@ -1496,6 +1530,7 @@ fn main() {
             eprintln!("  distinct failing site {}: {} -> {}", k + 1, vcore::clip(&f.observed, 140), p.display());
         }
     }
+    ctx.require("other_display_formats_converted", "byte strings that convert were also converted with the Ascii and Octal display formats");
     ctx.require("faulted_tfm_passes_size_checks", "faulted byte strings whose size table is still consistent (the reader goes past the header checks)");
     ctx.require("faulted_pl_with_balanced_parentheses", "faulted texts that are still balanced property lists (the parser goes past the structure checks)");
     ctx.require("faulted_pl_with_unbalanced_parentheses", "faulted texts with unbalanced parentheses");
